@@ -27,7 +27,17 @@ Record case := mkCase {
 }.
 
 Definition dflt : sample := mkS (-1) 0 0.
-Definition look (tb : list sample) (i : int) : sample := nth (Z.to_nat (zi i)) tb dflt.
+Definition look (tb : list sample) (i : nat) : sample := nth i tb dflt.
+
+(* sample lists travel run-length encoded: [start1; len1; start2; len2; ...] stands for the table
+   indices start1, start1+1, ..., start1+len1-1, start2, ... (the table is sorted by series and
+   time, so what a querier returns is mostly a few runs) *)
+Fixpoint unruns (l : list int) : list nat :=
+  match l with
+  | s :: n :: r => seq (Z.to_nat (zi s)) (Z.to_nat (zi n)) ++ unruns r
+  | _ => []
+  end.
+Definition looks (tb : list sample) (l : list int) : list sample := map (look tb) (unruns l).
 
 (* raw wire records (monomorphic constructors: cheap to elaborate) *)
 Inductive rsample := RS (s t v : int).
@@ -78,14 +88,14 @@ Definition wCase (id : int) (nacked : int) (table : list rsample)
     (trace : list revent) (outs : list rout) (held : list rout)
     (completed problems : int) : case :=
   let tb := map (fun x => let '(RS s t v) := x in mkS (zi s) (zt t) (zi v)) table in
-  let s0 := mkSt (map (look tb) headino) (zt headmint)
+  let s0 := mkSt (looks tb headino) (zt headmint)
                  (map (fun c => let '(RC r l) := c in
-                                mkOC (if zi r =? 0 then None else Some (zi r)) (map (look tb) l)) ooo)
+                                mkOC (if zi r =? 0 then None else Some (zi r)) (looks tb l)) ooo)
                  (zt ooomint) (zt ooomaxt)
-                 (map (fun b => let '(RB i lo hi l) := b in mkB (zi i) (zt lo) (zt hi) (map (look tb) l)) blocks)
+                 (map (fun b => let '(RB i lo hi l) := b in mkB (zi i) (zt lo) (zt hi) (looks tb l)) blocks)
                  [] [] [] 0 false (zi gcref) Idle [] [] [] [] false in
   mkCase (zi id) (firstn (Z.to_nat (zi nacked)) tb) s0 (map dec_ev trace)
-         (map (fun o => let '(RO q l) := o in (zi q, map (look tb) l)) outs)
+         (map (fun o => let '(RO q l) := o in (zi q, looks tb l)) outs)
          (map (fun h => let '(RO q l) := h in (zi q, map zi l)) held)
          (zi completed =? 1) (zi problems).
 
